@@ -424,6 +424,34 @@ theorem sart_returns (expm1 : α) (guess : Guess α) (maxIt : Nat) (hbb : dot b 
 
 end sart
 
+/-! ## Part 3 — argument representations -/
+
+/-- every writable float64 ndarray layout (C, Fortran, strided view) of W, b and an array guess, and every documented
+scalar guess, is accepted by the SART entry points -/
+theorem sart_accepts_float64 :
+    ∀ rW ∈ [Rep.f64, .fortran, .strided], ∀ rb ∈ [Rep.f64, .fortran, .strided],
+      ∀ rg ∈ [GRep.none, .pyfloat, .pyint, .npf64, .arr .f64, .arr .fortran, .arr .strided],
+        sartAccept rW rb rg = .ok := by decide
+
+/-- the least-squares wrappers accept an ndarray W of any dtype / layout / writability with an ndarray (or default)
+Tikhonov matrix and a 1-D measurement in any representation; `invert_svd` accepts any W and any ndarray b -/
+theorem lsq_accepts_ndarray (m : Nat) :
+    (∀ rW ∈ [Rep.f64, .f32, .i32, .i64, .bool, .fortran, .strided, .readonly],
+      ∀ ra ∈ [ARep.pyfloat, .pyint, .npf64, .npf32, .zerod],
+      ∀ rL ∈ [none, some Rep.f64, some .f32, some .i32, some .i64, some .bool, some .fortran, some .strided, some .readonly],
+      ∀ rb ∈ [Rep.f64, .f32, .i32, .i64, .bool, .list, .tuple, .fortran, .strided, .readonly],
+        lsqAccept m rW ra rL rb = .ok) ∧
+    (∀ rW ∈ [Rep.f64, .f32, .i32, .i64, .bool, .list, .tuple, .fortran, .strided, .readonly],
+      ∀ rb ∈ [Rep.f64, .f32, .i32, .i64, .bool, .fortran, .strided, .readonly, .col], svdAccept rW rb = .ok) := by
+  constructor
+  · intro rW hW ra ha rL hL rb hb
+    have hcol : rb ≠ Rep.col := by
+      intro h; subst h; simp at hb
+    rw [lsqAccept_col_only m rW ra rL rb hcol]
+    revert rW ra rL rb
+    decide
+  · decide
+
 /-! ## Non-vacuity: the hypotheses are satisfiable by concrete non-trivial instances (over ℚ) -/
 
 /-- the model run on a 3×2 system, two iterations — the values `/repo`'s `invert_sart` returns for the same input
